@@ -135,7 +135,7 @@ theorem Item.app_length (a : Item) (x : Vec) (hw : a.wf = true) (hx : x.length =
   cases a with
   | sq s => exact Sq.app_length s x hw hx
   | up u => exact Up.app_length u x hw hx
-  | mat fd lin off => simp only [Item.wf] at hw; exact affApply_length_of_shape hw x
+  | mat fd lin off => simp only [Item.wf, Bool.and_eq_true] at hw; exact affApply_length_of_shape hw.1 x
 
 theorem Fits.app_length {l : Chain} {td fd : Nat} (h : Fits l td fd) (x : Vec) (hx : x.length = fd) :
     (Chain.app l x).length = td := by
